@@ -214,8 +214,9 @@ def step (s : St) (w : List String) : St × String :=
     match findTrie s id.toNat!, parsePath p with
     | some (_, t), some p => (s, match lookup t.tree p with | some b => "ok " ++ hex b | none => "notpresent")
     | _, _ => (s, "bad-op")
-  | ["merge", id] =>
+  | "merge" :: id :: flags =>
     let id := id.toNat!
+    let keep := flags.contains "keep"
     match findTrie s id with
     | some (pid, c) =>
       if id = 0 then (s, "bad-op") else
@@ -225,7 +226,7 @@ def step (s : St) (w : List String) : St × String :=
         | .ok p' =>
           -- hypothesis of the closed merge theorems, evaluated on every replayed merge: the ordering is never stuck
           let stuck := if orderStuckD (mergeOrder c.cc.getChanges) || orderStuckD c.cc.getChanges then " ORDER-STUCK" else ""
-          (syncP (closeTrie (setTrie s pid p') id), "ok " ++ rootStr p'.root ++ stuck)
+          (syncP (if keep then setTrie s pid p' else closeTrie (setTrie s pid p') id), "ok " ++ rootStr p'.root ++ stuck)
         | .stale => (s, "stale")
       | none => (s, "bad-op")
     | none => (s, "bad-op")
@@ -242,6 +243,15 @@ def step (s : St) (w : List String) : St × String :=
     match findTrie s 0 with
     | some (_, t) => let s' := doSave s t none; (s', "ok " ++ rootStr t.root ++ " n=" ++ nodeCount s')
     | none => (s, "bad-op")
+  | ["save-timeout", _] =>
+    -- the save left through its context while the batch was stalled; the stalled writer then wrote the batch
+    match findTrie s 0 with
+    | some (_, t) =>
+      let s1 := { s with ps := s.ps.applyAll ((saveStream sha3 t).take 1) }
+      let s1 := if s.kind0 = "pndb" then setTrie s1 0 { t with db := { t.db with current := s1.ps.nodes } } else s1
+      (s1, "ok")
+    | none => (s, "bad-op")
+  | ["save-fail"] => (match findTrie s 0 with | some _ => (s, "ok") | none => (s, "bad-op"))
   | ["crash-save", k] =>
     match findTrie s 0 with
     | some (_, t) => let s' := doSave s t (some k.toNat!); (s', "ok " ++ rootStr t.root ++ " n=" ++ nodeCount s')
